@@ -214,6 +214,12 @@ def d3_formula(chk, F):
         ls = leaves(base)
         okb = any(l.endswith("<impl [T]>::first") for l in ls) and "self.data" in bt and not any(l.endswith(("::last", "::max", "::min", "::iter")) for l in ls) \
             and set(l for l in ls if l.startswith("lit:")) <= {"lit:1"}
+    if ok and not okb and base is not None:
+        # the same lineage through a getter (`self.servings()`) and the closure given to and_then / map
+        from flow import deep_leaves
+        dl = deep_leaves(F, base)
+        okb = any(l.endswith("<impl [T]>::first") for l in dl) and any(l.startswith("param:self.data") for l in dl) \
+            and not any(l.endswith(("::last", "::max", "::min", "::sum", "::len")) for l in dl) and set(l for l in leaves(base) if l.startswith("lit:")) <= {"lit:1"}
     chk.expect(ok and okb, "C08.D3-formula", "scale_to_servings|factor", s.where(cs[0][0]),
                f"scaling to n servings must scale by n / first declared servings (or 1); the factor is {txt[:160]}", sample=f"factor = {txt[:120]}")
 
